@@ -53,7 +53,7 @@ static std::string oracle(const Case& c) {
     }
     s.reset();  
     bool nt = topbits || nonascii || chain.size() >= 2;
-    ev.eval(); if (topbits) ev.count("mask-top-bits-of-byte18-set"); if (nonascii) ev.count("password:non-ascii"); if (pw.empty()) ev.count("password:empty"); if (other_form != pw) ev.count("password:has-other-canonical-form");
+    ev.eval(); if (topbits) ev.count("mask-top-bits-of-byte18-set"); if (nonascii) ev.count("password:non-ascii"); if (pw.empty()) ev.count("password:empty"); if (pwn.size() >= 256) ev.count("password:nfkd>=256-bytes"); if (other_form != pw) ev.count("password:has-other-canonical-form");
     if (chain.size() >= 2) ev.count("chain>=2"); if (only_same && same_parity == 0) ev.count("involution-checked"); if (!only_same) ev.count("wrong-password-used");
     if (nt) { ev.nt(c); ev.sample(nonascii ? "non-ascii" : "ascii", c); } else ev.count("trivial");
     return "";
@@ -71,7 +71,10 @@ static rc::Gen<std::string> password() {
     });
     // characters that text tools like to strip or fold: byte order mark, zero-width space/joiner, soft hyphen, word joiner, variation selector — at either end
     Gen<std::string> special = gen::element<std::string>("\xef\xbb\xbf", "\xe2\x80\x8b", "\xe2\x80\x8d", "\xc2\xad", "\xe2\x81\xa0", "\xef\xb8\x8f", "\t", "\n", " ", "\xc2\xa0");
-    return gen::resize(100, gen::weightedOneOf<std::string>({{1, gen::just(std::string())}, {2, gen::apply([](std::string a, std::vector<std::string> v, std::string b, int where) { std::string s; for (auto& x : v) s += x; return where == 0 ? a + s : where == 1 ? s + b : where == 2 ? a : a + s + b; }, special, gen::resize(3, gen::container<std::vector<std::string>>(gen::resize(12, piece))), special, gen::inRange(0, 4))}, {8, gen::map(gen::resize(4, gen::container<std::vector<std::string>>(gen::resize(12, piece))), [](std::vector<std::string> v) { std::string s; for (auto& p : v) s += p; return s; })}}));
+    // long passwords: normalised lengths around 255/256/257 (a length kept in one byte wraps there) and up to the buffer limit
+    Gen<std::string> longpw = gen::apply([](int len, std::string unit, std::string tail) { std::string s; while ((int)model::nfkd(s + unit).size() <= len) s += unit; while ((int)model::nfkd(s).size() < len) s += "x"; return s + tail; },
+        gen::weightedOneOf<int>({{4, gen::inRange(250, 262)}, {2, gen::inRange(505, 520)}, {2, gen::inRange(530, 541)}, {1, gen::inRange(60, 250)}}), gen::element<std::string>("a", "pass word ", "\xc3\xa9", "\xea\xb0\x80", "Z9"), gen::element<std::string>("", "!", "\xc3\xb1"));
+    return gen::resize(100, gen::weightedOneOf<std::string>({{1, gen::just(std::string())}, {1, longpw}, {2, gen::apply([](std::string a, std::vector<std::string> v, std::string b, int where) { std::string s; for (auto& x : v) s += x; return where == 0 ? a + s : where == 1 ? s + b : where == 2 ? a : a + s + b; }, special, gen::resize(3, gen::container<std::vector<std::string>>(gen::resize(12, piece))), special, gen::inRange(0, 4))}, {8, gen::map(gen::resize(4, gen::container<std::vector<std::string>>(gen::resize(12, piece))), [](std::vector<std::string> v) { std::string s; for (auto& p : v) s += p; return s; })}}));
 }
 
 static void run() {
